@@ -485,7 +485,34 @@ def probe_union_field_bad_value():
     return bad[0] == "ParserError" and good[0] == "ok" and good[2] >= 1
 
 
+def check_xsi_attributes_on_union_elements(ctx):
+    """Directed (vf/props/union_models.py): xsi attributes are always tolerated, also on elements typed by a union of a class
+    with primitives - the parsed object is the same with and without them, in every option combination."""
+    from vf.props import union_models as U
+
+    XSI_DECL = f'xmlns:xsi="{XSI}"'
+    base = f'<holder xmlns="{U.NS}" {XSI_DECL}><m{{a}}>5</m><tail>t</tail></holder>'
+    base2 = f'<holder xmlns="{U.NS}" {XSI_DECL}><m{{a}}><x>4</x></m><us{{a}}><y>s</y></us></holder>'
+    for doc in (base, base2):
+        for attr in (' xsi:schemaLocation="urn:a a.xsd"', ' xsi:noNamespaceSchemaLocation="a.xsd"', ' xsi:nil="false"', ' xsi:foo="1"'):
+            for handler in bc.HANDLERS:
+                for opts in OPTS:
+                    ctx.case("xsi-on-union", doc, attr, handler, opts)
+                    ctx.evals()
+                    ctx.feature("fault:xsi-attribute-on-union-element")
+                    (st0, v0), _ = run_parse(doc.format(a="").encode(), U.Holder, handler, opts)
+                    (st1, v1), _ = run_parse(doc.format(a=attr).encode(), U.Holder, handler, opts)
+                    if st0 != "ok":
+                        ctx.inconc(f"directed union document does not parse: {v0}")
+                        continue
+                    if st1 != "ok" or deep_eq(v0, v1):
+                        ctx.violation(f"xsi-attribute/changes-the-object/{handler}", f"{doc.format(a=attr)}\nwithout: {v0!r}\nwith: {v1!r}", {"fn": "xsi-on-union"})
+
+
 def replay(witness, ctx):
+    if witness.get("fn") == "xsi-on-union":
+        check_xsi_attributes_on_union_elements(ctx)
+        return
     model, loaded, obj = bc.from_witness(witness)
     try:
         if witness.get("fn") == "dict":
@@ -505,6 +532,7 @@ def run_shard(ctx):
                 ctx.known_finding("C10/unconvertible-value-below-key-located-object")
         except Exception as e:  # noqa: BLE001
             ctx.inconc(f"probe failed to run: {type(e).__name__}: {e}")
+        check_xsi_attributes_on_union_elements(ctx)
     n_models = ctx.per_shard(ctx.pick(260, 6000))
     min_d = MIN_DISTINCT[ctx.tier] // ctx.nshards + 1
     k = 0
